@@ -46,15 +46,26 @@ def T(name, value):
     return dict(kind='text', name=cps(name), value=cps(value))
 
 
-def F(name, filename, ctype, content):
-    return dict(kind='file', name=cps(name), filename=cps(filename), ctype=cps(ctype), content=list(content))
+def F(name, filename, ctype, content, clen=None):
+    """clen: text of a Content-Length header inside the part (None: no such header)"""
+    d = dict(kind='file', name=cps(name), filename=cps(filename), ctype=cps(ctype), content=list(content))
+    if clen is not None:
+        d['clen'] = cps(str(clen))
+    return d
 
 
-def case(boundary, fields, mem=102400, k=0, framing='cl', first='POST', chunks=None, blk=3, with_body=False):
+def case(boundary, fields, mem=102400, k=0, framing='cl', first='POST', chunks=None, blk=3, with_body=False,
+         ops=None, sched=None, app='own', cfg_via='ctor', copy=False, second=None, api=False):
     """blk: block size of the interleaved pass (every upload is read blk bytes at a time, round robin);
-    with_body: Request.body is also read from between the rounds"""
+    with_body: Request.body is also read from between the rounds;
+    ops: script of file operations run on every upload: ['r', n] read(n) (n < 0: read()), ['s', pos, whence], ['t'];
+    sched: short-read schedule of wsgi.input; app: 'own' (fresh Ombott) | 'shared' (one module-level application
+    serving many cases); cfg_via: how max_memfile_size is configured: 'ctor' | 'setup' | 'default' (needs mem=102400);
+    copy: also read the form through Request.copy(); second: another field list posted through the SAME request
+    object by replacing wsgi.input (cache invalidation); api: exercise the rest of the FileUpload / BytesIOProxy API"""
     return dict(boundary=cps(boundary), fields=fields, mem=mem, k=k, framing=framing, first=first,
-                chunks=chunks or [7], blk=blk, with_body=with_body)
+                chunks=chunks or [7], blk=blk, with_body=with_body, ops=ops or [], sched=sched or [], app=app,
+                cfg_via=cfg_via, copy=copy, second=second, api=api)
 
 
 # ---------------------------------------------------------------- dev-only line coverage of the anchored code
@@ -154,6 +165,8 @@ def header_block(f):
     h = b'Content-Disposition: form-data; name="' + u8(f['name']) + b'"'
     if f['kind'] == 'file':
         h += b'; filename="' + u8(f['filename']) + b'"\r\nContent-Type: ' + u8(f['ctype'])
+        if f.get('clen') is not None:
+            h += b'\r\nContent-Length: ' + u8(f['clen'])
     return h
 
 
@@ -198,7 +211,11 @@ def valid(case):
     if not b or any(chr(c) not in BCHARS + ' ' for c in b) or b[-1] == 32:
         return False
     tok = b'\r\n--' + bytes(b)
-    for f in case['fields']:
+    if case.get('cfg_via') == 'default' and case['mem'] != 102400:
+        return False
+    if case.get('second') is not None and budget(case['second']) > case['mem']:
+        return False         # the second form must fit the in-memory budget as well
+    for f in case['fields'] + (case.get('second') or []):
         for nm in (f['name'], f.get('filename', [])):
             if any(c == 34 or c in LINEBREAKS or 0xD800 <= c <= 0xDFFF or c > 0x10FFFF for c in nm):
                 return False
@@ -258,11 +275,34 @@ def corpus():
              blk=64, with_body=True, mem=97),
         case('XyZ', [F('a', 'a', 'a/b', b'0123456789'), F('b', 'b', 'a/b', b'abcdefghij')], blk=1, with_body=True),
         case('XyZ', [F('a', 'a', 'a/b', b'0123456789'), F('b', 'b', 'a/b', b'abcdefghij')], blk=0),
+        # ---- audit round: the rest of the file API, seek with every whence, scripts of reads
+        case('XyZ', [F('a', 'a', 'a/b', b'0123456789')],
+             ops=[['s', 3, 0], ['r', 2], ['t'], ['s', -2, 1], ['r', 100], ['s', -4, 2], ['r', -1], ['s', 5, 2], ['t'], ['r', 1],
+                  ['s', -7, 0], ['t'], ['r', 0], ['s', 0, 3], ['s', 2, 1], ['t']]),
+        case('XyZ', [F('a', 'a', 'a/b', b''), F('b', 'b', 'a/b', b'xyz')], ops=[['s', 1, 1], ['r', 1], ['s', -1, 2], ['r', 5], ['t']]),
+        case('XyZ', [F('up', '../../etc/p\u00e4ss wd.txt', 'text/plain', b'DATA'), F('up', '.. .--', 'a/b', b'x'),
+                     F('e', '\u4e2d\u6587', 'a/b', b'y'), F('l', 'a' * 300 + '.txt', 'a/b', b'z')], api=True),
+        case('XyZ', [F('f', 'f.bin', 'application/octet-stream', b'DATA', clen=4), F('g', 'g', 'a/b', b'', clen='0'),
+                     F('h', 'h', 'a/b', b'zz')], api=True),
+        # ---- the same request object: through copy(), and a second form after wsgi.input was replaced
+        case('XyZ', [T('a', '1'), F('f', 'x', 'a/b', b'one')], copy=True,
+             second=[T('a', '2'), T('b', 'new'), F('g', 'y', 'a/b', b'two')]),
+        case('XyZ', [T('a', '1')], framing='chunked', chunks=[3, 5], mem=200, second=[F('a', 'y', 'a/b', b'two' * 30)]),
+        # ---- one application serving many requests; configuration through setup() and by default
+        case('XyZ', [T('a', '1'), F('f', 'x', 'a/b', b'one')], app='shared', cfg_via='setup', mem=300),
+        case('XyZ', [T('b', '2')], app='shared', cfg_via='setup', mem=64),
+        case('XyZ', [F('f', 'x', 'a/b', b'D' * 200)], app='shared', cfg_via='setup', mem=120),
+        case('XyZ', [T('a', 'v')], cfg_via='default'),
+        # ---- short reads / early fragments on wsgi.input under both framings
+        case('XyZ', [T('a', 'v' * 20), F('f', 'x', 'a/b', bytes(range(90)))], mem=50, sched=[0, 0, 3, 1, 0, 7, 0, 0, 2] * 9),
+        case('XyZ', [T('a', 'v' * 20), F('f', 'x', 'a/b', bytes(range(90)))], mem=50, framing='chunked', chunks=[11, 2, 40],
+             sched=[0, 1, 0, 0, 2, 0, 5] * 40),
     ]
 
 
 NAME_ATOMS = ['a', 'b', 'x', 'name', 'filename', ';', '=', ' ', '\\', ':', '; filename=', '\u00e9', '\u4e2d', '\U0001f600', "'", 'K',
-              '\x1f', '\t', 'A', '%22', ',', 'form-data']
+              '\x1f', '\t', 'A', '%22', ',', 'form-data', '\u212a', '\u0130', '\x00', '\xff', '\xa0', '/', '..', '\u00df',
+              '\ufb01', '\u0301']
 
 
 def gen_name(rng, allow_empty=True):
@@ -304,7 +344,10 @@ def gen(rng, n):
                     content = data.encode('latin1')
                 fn = gen_name(rng, allow_empty=rng.random() < 0.03)
                 ct = rng.choice(['text/plain', 'application/octet-stream', 'image/png', 'a/b', 'x', ''])
-                fields.append(F(name, fn, ct, content))
+                clen = None
+                if rng.random() < 0.1:
+                    clen = rng.choice([len(content), 0, 7, '007'])
+                fields.append(F(name, fn, ct, content, clen=clen))
             else:
                 if rng.random() < 0.3:
                     data += rng.choice(['\u00e9', '\u4e2d\u6587', '\U0001f600', '\x00', '\x85', '\u2028'])
@@ -317,8 +360,31 @@ def gen(rng, n):
         framing = rng.choice(['cl', 'cl', 'chunked'])
         if framing == 'chunked':
             mem = max(mem, 5)
+        ops = []
+        if rng.random() < 0.4:
+            for _ in range(rng.randrange(1, 8)):
+                o = rng.random()
+                if o < 0.45:
+                    ops.append(['r', rng.choice([-1, 0, 1, 2, 5, 64, 1000])])
+                elif o < 0.85:
+                    ops.append(['s', rng.choice([-1000, -3, -1, 0, 1, 2, 9, 1000]), rng.choice([0, 0, 1, 1, 2, 2, 3])])
+                else:
+                    ops.append(['t'])
+        second = None
+        if rng.random() < 0.12:
+            second = [T(gen_name(rng), gen_data(rng, boundary)) for _ in range(rng.randrange(0, 3))]
+            if rng.random() < 0.5:
+                second.append(F(gen_name(rng), 'f2', 'a/b', gen_data(rng, boundary).encode('latin1')))
+        if second is not None:
+            mem = max(mem, budget(second))
+        cfg_via = rng.choice(['ctor', 'ctor', 'setup'])
+        if mem == 102400 and rng.random() < 0.5:
+            cfg_via = 'default'
         c = case(boundary, fields, mem=mem, k=rng.choice([0, 0, 1, 2, 5, 1000]),
-                 blk=rng.choice([0, 1, 2, 3, 7, 64, 64]), with_body=rng.random() < 0.3,
+                 blk=rng.choice([0, 1, 2, 3, 7, 64, 64]), with_body=rng.random() < 0.3, ops=ops,
+                 sched=[] if rng.random() < 0.6 else [rng.choice([0, 0, 1, 2, 3, 7, 20]) for _ in range(rng.randrange(1, 40))],
+                 app=rng.choice(['own', 'own', 'shared']), cfg_via=cfg_via, copy=rng.random() < 0.25, second=second,
+                 api=rng.random() < 0.25,
                    framing=framing, first=rng.choice(['POST', 'forms', 'files']),
                    chunks=[rng.randrange(1, 40) for _ in range(rng.randrange(1, 4))])
         assert valid(c), c
@@ -349,44 +415,162 @@ def run_impl(case):
     return covered(ID, COV_TARGETS, _run_impl, case)
 
 
+SAFE_FN = set('abcdefghijklmnopqrstuvwxyzABCDEFGHIJKLMNOPQRSTUVWXYZ0123456789-_.')
+
+
+def run_ops(x, ops):
+    """the file-operation script on one upload, results in the encoding of Fields.proxy_run"""
+    out = []
+    x.file.seek(0)
+    for op in ops:
+        if op[0] == 'r':
+            b = x.file.read(None if op[1] < 0 else op[1])
+            out += [0, len(b)] + list(b)
+        elif op[0] == 's':
+            try:
+                out += [1, x.file.seek(op[1], op[2])]
+            except ValueError:
+                out += [2]
+        else:
+            out += [1, x.file.tell()]
+    x.file.seek(0)
+    return out
+
+
+def api_pass(x):
+    """the rest of the FileUpload / BytesIOProxy API; returns a dict checked by the oracle"""
+    import os
+    import shutil
+    import tempfile
+    r = {}
+    f = x.file
+    r['flags'] = [f.isatty(), f.seekable(), f.readable(), f.writable(), f.closed]
+    try:
+        f.fileno()
+        r['fileno'] = 'returned'
+    except OSError:
+        r['fileno'] = 'OSError'
+    f.flush()
+    f.close()                                      # a no-op: the window stays readable
+    f.seek(0)
+    whole = f.read()
+    r['after_close'] = list(whole)
+    r['filename'] = [x.filename, x.filename]       # cached_property: twice
+    h = x.get_header('Content-Type')
+    r['get_header'] = None if h is None else cps(h.value)
+    r['get_header_default'] = x.get_header('X-Absent', 'dflt')
+    try:
+        r['clen'] = x.content_length
+    except Exception as e:
+        r['clen'] = 'EXC:' + type(e).__name__
+    f.seek(1)
+    sink = io.BytesIO()
+    x.save(sink, chunk_size=3)                     # from the current position, position restored afterwards
+    r['saved_from_1'] = list(sink.getvalue())
+    r['tell_after_save'] = f.tell()
+    f.seek(0)
+    d = tempfile.mkdtemp(prefix='mpB2_c07_')
+    try:
+        x.save(d)                                  # into a directory: named by the sanitised file name
+        names = os.listdir(d)
+        r['dir_names'] = names
+        r['dir_content'] = list(open(os.path.join(d, names[0]), 'rb').read()) if names else None
+        try:
+            x.save(d)
+            r['second_save'] = 'overwrote'
+        except IOError:
+            r['second_save'] = 'IOError'
+        x.save(d, overwrite=True)
+        target = os.path.join(d, 'explicit.bin')
+        x.save(target)
+        r['path_content'] = list(open(target, 'rb').read())
+    finally:
+        shutil.rmtree(d, ignore_errors=True)
+    f.seek(0)
+    # a FileUpload built by hand with a bytes file name (the only way to reach the bytes branch of .filename)
+    from ombott.request_pkg.helpers import FileUpload
+    r['bytes_filename'] = FileUpload(io.BytesIO(b'x'), 'n', b'caf\xc3\xa9 \xff/..\\x.txt').filename
+    return r
+
+
+_CUR = {}
+_SHARED = []
+
+
+def _handler():
+    app, case, seen = _CUR['app'], _CUR['case'], _CUR['seen']
+    rq = app.request
+    k = case['k']
+    getattr(rq, case['first'])
+    seen['post'] = snap(rq.POST, k)
+    seen['forms'] = snap(rq.forms, k)
+    seen['files'] = snap(rq.files, k)
+    # interleaved pass: all uploads, blk bytes at a time, round robin (every window is over the same source)
+    ups = [x for v in rq.files.values() for x in (v if isinstance(v, list) else [v])]
+    blocks = [[] for _ in ups]
+    active = list(range(len(ups)))
+    rounds = 0
+    while active and rounds < 100000:
+        rounds += 1
+        for i in list(active):
+            b = ups[i].file.read(case['blk'])
+            if b:
+                blocks[i].append(list(b))
+            else:
+                active.remove(i)
+        if case['with_body']:
+            rq.body.read(5)
+    seen['inter'] = blocks
+    seen['runs'] = [run_ops(x, case.get('ops') or []) for x in ups]
+    if case.get('api'):
+        seen['api'] = [api_pass(x) for x in ups]
+    if case.get('copy'):
+        c = rq.copy()
+        seen['copy'] = [snap(c.POST, k), snap(c.forms, k), snap(c.files, k)]
+    if case.get('second') is not None:
+        body2 = encode_form(bytes(case['boundary']), case['second'])
+        if case['framing'] == 'chunked':
+            rq['wsgi.input'] = io.BytesIO(chunked(body2, case['chunks']))
+        else:
+            rq['wsgi.input'] = io.BytesIO(body2)
+            rq['CONTENT_LENGTH'] = str(len(body2))
+        seen['second'] = [snap(rq.POST, k), snap(rq.forms, k), snap(rq.files, k)]
+    return 'ok'
+
+
 def _run_impl(case):
     from ombott import Ombott
+    from props.common import FragStream
     body = encode_form(bytes(case['boundary']), case['fields'])
-    app = Ombott(dict(max_memfile_size=case['mem']))
+    cfg = dict(max_memfile_size=case['mem'])
+    via = case.get('cfg_via', 'ctor')
+    if case.get('app') == 'shared':
+        if not _SHARED:
+            shared = Ombott()
+            shared.post('/')(_handler)
+            _SHARED.append(shared)
+        app = _SHARED[0]
+        app.setup(cfg)                             # one application, re-configured per request
+    else:
+        if via == 'setup':
+            app = Ombott()
+            app.setup(cfg)
+        elif via == 'default' and case['mem'] == 102400:
+            app = Ombott()
+        else:
+            app = Ombott(cfg)
+        app.post('/')(_handler)
     seen = {}
-
-    @app.post('/')
-    def handler():
-        rq = app.request
-        getattr(rq, case['first'])
-        seen['post'] = snap(rq.POST, case['k'])
-        seen['forms'] = snap(rq.forms, case['k'])
-        seen['files'] = snap(rq.files, case['k'])
-        # interleaved pass: all uploads, blk bytes at a time, round robin (every window is over the same source)
-        ups = [x for v in rq.files.values() for x in (v if isinstance(v, list) else [v])]
-        blocks = [[] for _ in ups]
-        active = list(range(len(ups)))
-        rounds = 0
-        while active and rounds < 100000:
-            rounds += 1
-            for i in list(active):
-                b = ups[i].file.read(case['blk'])
-                if b:
-                    blocks[i].append(list(b))
-                else:
-                    active.remove(i)
-            if case['with_body']:
-                rq.body.read(5)
-        seen['inter'] = blocks
-        return 'ok'
+    _CUR.update(app=app, case=case, seen=seen)
 
     ctype = 'multipart/form-data; boundary=' + ''.join(chr(c) for c in case['boundary'])
+    sched = case.get('sched') or []
     if case['framing'] == 'chunked':
         wire = chunked(body, case['chunks'])
-        env = environ('POST', '/', **{'wsgi.input': io.BytesIO(wire), 'CONTENT_TYPE': ctype,
+        env = environ('POST', '/', **{'wsgi.input': FragStream(wire, sched), 'CONTENT_TYPE': ctype,
                                       'HTTP_TRANSFER_ENCODING': 'chunked'})
     else:
-        env = environ('POST', '/', **{'wsgi.input': io.BytesIO(body), 'CONTENT_TYPE': ctype,
+        env = environ('POST', '/', **{'wsgi.input': FragStream(body, sched), 'CONTENT_TYPE': ctype,
                                       'CONTENT_LENGTH': str(len(body))})
     status = []
     out = app(env, lambda s, h, e=None: status.append(s))
@@ -395,20 +579,28 @@ def _run_impl(case):
     if code != 200:
         tb = env['wsgi.errors'].getvalue().strip().split('\n')
         return dict(status=code, error=tb[-1][:160] if tb and tb[-1] else '')
-    return dict(status=200, post=seen.get('post'), forms=seen.get('forms'), files=seen.get('files'),
-                inter=seen.get('inter'))
+    obs = dict(status=200, post=seen.get('post'), forms=seen.get('forms'), files=seen.get('files'),
+               inter=seen.get('inter'), runs=seen.get('runs'))
+    for key in ('api', 'copy', 'second'):
+        if key in seen:
+            obs[key] = seen[key]
+    return obs
 
 
 def project(obs, case):
     if obs.get('status') != 200:
         return dict(status=obs.get('status'))
-    return obs
+    return {k: obs.get(k) for k in ('status', 'post', 'forms', 'files', 'inter', 'runs')}
 
 
 # ---------------------------------------------------------------- model side
 def encode(case):
     body = encode_form(bytes(case['boundary']), case['fields'])
-    return [case['mem'], case['k'], case['blk']] + enc_str(case['boundary']) + enc_str(body)
+    ops = []
+    for op in case.get('ops') or []:
+        ops += [0, op[1]] if op[0] == 'r' else [1, op[1], op[2]] if op[0] == 's' else [2]
+    return ([case['mem'], case['k'], case['blk']] + enc_str(case['boundary']) + enc_str(body)
+            + [len(case.get('ops') or [])] + ops)
 
 
 def _ostr(r):
@@ -442,7 +634,8 @@ def decode(out, case):
         forms = _fdict(r)
         files = _fdict(r)
         inter = r.list(lambda q: q.list(lambda z: z.str()))
-        return dict(status=200, post=post, forms=forms, files=files, inter=inter)
+        runs = r.list(lambda q: q.str())
+        return dict(status=200, post=post, forms=forms, files=files, inter=inter, runs=runs)
     if tag == 1:
         return dict(status=r.int())
     if tag == 2:
@@ -525,6 +718,44 @@ def oracle(case, obs):
                         % (i, case['blk'], len(joined), joined[:12], len(order[i]), order[i][:12]))
             if case['blk'] > 0 and any(len(b) != case['blk'] for b in blocks[:-1]):
                 return 'upload %d: a block other than the last is not %d bytes long' % (i, case['blk'])
+    uploads = [f for key, _ in expected(fields, 'files') for f in fields
+               if f['kind'] == 'file' and tuple(f['name']) == key]
+    # the same form through Request.copy(); another form through the same request after wsgi.input was replaced
+    if 'copy' in obs and obs['copy'] != [obs['post'], obs['forms'], obs['files']]:
+        return 'Request.copy() shows a different form than the request itself'
+    if 'second' in obs:
+        sec = case['second']
+        for which, have in zip(('post', 'forms', 'files'), obs['second']):
+            if expected(sec, which) != got(have):
+                return ('after wsgi.input was replaced Request.%s still/again differs from the second form: sent %r, '
+                        'read back %r' % (which, expected(sec, which)[:3], got(have)[:3]))
+    # the rest of the upload API
+    for i, a in enumerate(obs.get('api') or []):
+        if i >= len(uploads):
+            break
+        f = uploads[i]
+        content = bytes(f['content'])
+        if a['flags'] != [False, True, True, False, False] or a['fileno'] != 'OSError':
+            return 'upload %d: file flags %r / fileno %r' % (i, a['flags'], a['fileno'])
+        if bytes(a['after_close']) != content:
+            return 'upload %d: not readable after close()' % i
+        fn = a['filename'][0]
+        if (a['filename'][1] != fn or not fn or len(fn) > 255 or set(fn) - SAFE_FN or fn[0] in '.-' or fn[-1] in '.-'):
+            return 'upload %d: FileUpload.filename %r is not a safe file name' % (i, a['filename'])
+        if a['get_header'] != f['ctype'] or a['get_header_default'] != 'dflt':
+            return 'upload %d: get_header gives %r / %r' % (i, a['get_header'], a['get_header_default'])
+        want_clen = int(''.join(chr(c) for c in f['clen'])) if f.get('clen') is not None else -1
+        if a['clen'] != want_clen:
+            return 'upload %d: FileUpload.content_length is %r, the part says %r' % (i, a['clen'], want_clen)
+        if bytes(a['saved_from_1']) != content[1:] or a['tell_after_save'] != min(1, len(content)):
+            return 'upload %d: save() to a file object wrote %d bytes from offset 1 of %d, position afterwards %r' % (
+                i, len(a['saved_from_1']), len(content), a['tell_after_save'])
+        if a['dir_names'] != [fn] or bytes(a['dir_content'] or b'') != content or bytes(a['path_content']) != content:
+            return 'upload %d: save() to a directory/path: names %r' % (i, a['dir_names'])
+        if a['bytes_filename'] != 'x.txt':
+            return 'FileUpload.filename of a bytes file name: %r' % a['bytes_filename']
+        if a['second_save'] != 'IOError':
+            return 'upload %d: save() overwrote an existing file without overwrite=True' % i
     k = case['k']
     for key, is_list, items in obs['files']:
         for it in items:
@@ -539,7 +770,44 @@ def has_empty_filename(case, what, m):
     return any(f['kind'] == 'file' and not f['filename'] for f in case['fields'])
 
 
-PREDICATES = {'has_empty_filename': has_empty_filename}
+def part_has_content_length(case, what, m):
+    """an upload whose part carries its own Content-Length header, and the handler reads FileUpload.content_length"""
+    return bool(case.get('api')) and any(f.get('clen') is not None for f in case['fields'] if f['kind'] == 'file')
+
+
+PREDICATES = {'has_empty_filename': has_empty_filename, 'part_has_content_length': part_has_content_length}
+
+# AUDIT_BRIEF step 2: what of the anchored API can influence the observation, and which case kind exercises it
+API_SURFACE = [
+    ('Request.POST / forms / files (cache_in properties)', 'covered by every case; the first one read is case["first"]; all three are read'),
+    ('Request.POST, non-multipart branches (json, urlencoded)', 'excluded: not multipart; covered by C12 (json) and C18 (urlencoded)'),
+    ('Request.body between reads of uploads', 'covered by with_body (interleaved pass)'),
+    ('Request.copy()', 'covered by copy=True: the copy shows the same three dictionaries'),
+    ('Request.__setitem__("wsgi.input"/"CONTENT_LENGTH") (cache invalidation)', 'covered by second=<fields>: a second form through the same request'),
+    ('config max_memfile_size: Ombott(dict) / Ombott.setup(dict) / default', 'covered by cfg_via ctor|setup|default, values at/below/above budget and body size'),
+    ('config max_body_size', 'excluded: rejects the request (C13); exercised in C12'),
+    ('one Ombott serving many requests', 'covered by app="shared" (a third of the generated cases, in sequence)'),
+    ('wsgi.input short reads, Content-Length and chunked framing', 'covered by sched with framing cl|chunked'),
+    ('FieldStorage.read / parse_header / iter_items, success paths', 'covered by every case'),
+    ('FieldStorage error paths (BodyParsingError / BodySizeError raises)', 'excluded here: malformed bodies are C12 (246/246 lines there); the budget raise is covered (mem below budget)'),
+    ('FieldStorage._patt', 'covered: names with ; = quotes-free text; text pinned (C07_option_regex_pinned)'),
+    ('Header (SimpleNamespace name/value/options)', 'covered through content_type.value / get_header'),
+    ('extra part headers (Content-Length inside a part)', 'covered by F(..., clen=...)'),
+    ('BytesIOProxy.read(sz) incl. None, 0, negative, beyond the window', 'covered by k, blk and ops ["r", n]'),
+    ('BytesIOProxy.seek(pos, whence) SEEK_SET/CUR/END, negative, beyond, bad whence; tell', 'covered by ops ["s", pos, whence] / ["t"] (model: proxy_seek, theorem C07_proxy_reads_stay_in_window)'),
+    ('BytesIOProxy.isatty/seekable/readable/writable/fileno/closed/close/flush', 'covered by api=True'),
+    ('several BytesIOProxy over one source', 'covered by the interleaved pass (blk) on every case with >= 2 uploads'),
+    ('FileUpload.file / name / raw_filename / headers', 'covered by every case with an upload'),
+    ('FileUpload.content_type (HeaderProperty -> Header object)', 'covered: observed as content_type.value on every upload'),
+    ('FileUpload.content_length', 'covered by api=True with and without a part Content-Length (finding C07-upload-content-length-typeerror)'),
+    ('FileUpload.get_header(name, default)', 'covered by api=True'),
+    ('FileUpload.filename (sanitised, cached)', 'covered by api=True: oracle checks the safe alphabet, length, no leading/trailing .-, stability; str and bytes raw names'),
+    ('FileUpload.save(destination, overwrite, chunk_size): file object, directory, path, existing file', 'covered by api=True'),
+    ('FileUpload._copy_file (restores the position)', 'covered by api=True (save from offset 1, tell afterwards)'),
+    ('unicodedata.normalize / os.path.basename inside filename', 'excluded from the model: only the safety of the result is checked by the oracle'),
+    ('locale / TZ', 'excluded: nothing in the anchored code depends on them'),
+    ('lone surrogates in names/values', 'excluded: cannot be encoded as UTF-8 by a sender; undecodable bytes are C12'),
+]
 
 
 def nontrivial(case, obs):
@@ -588,6 +856,9 @@ def shrink(case):
         yield dict(case, k=0)
     if case.get('with_body'):
         yield dict(case, with_body=False)
+    for key, dflt in (('ops', []), ('sched', []), ('copy', False), ('second', None), ('api', False), ('app', 'own')):
+        if case.get(key) not in (dflt, None):
+            yield dict(case, **{key: dflt})
     if len(case['boundary']) > 1:
         yield dict(case, boundary=case['boundary'][:-1])
 
